@@ -1,5 +1,6 @@
 import GeoVerif.Corr.Proto
 import GeoVerif.Corr.C16
+import GeoVerif.Corr.C18
 /-!
 `gvdriver corr` : reads protocol lines on stdin, prints one `bad …` line per
 disagreement and a final `summary …` line.  Core Lean only (no Mathlib), so it
@@ -8,7 +9,7 @@ links as a native executable.
 open GeoVerif GeoVerif.Proto
 
 def handlers : List (String → List String → List String → Option Verdict) :=
-  [Corr.C16.handle]
+  [Corr.C16.handle, Corr.C18.handle]
 
 def dispatch (op : String) (args res : List String) : Verdict :=
   match handlers.findSome? (fun h => h op args res) with
